@@ -162,7 +162,16 @@ def run(chk, facts):
     try:
         frm = syn.one_fn("from", impl_of="CoreFunOp")
         disp = syn.one_fn("fmt", impl_of="CoreFunOp", trait="Display")
-        m2 = [n for n in walk(disp["body"]) if n.get("k") == "match"][0]
+        # the Display table: the match in `fmt`, or in a private method of CoreFunOp that `fmt` calls (`self.dunder_name()`)
+        cands2 = [n for n in walk(disp["body"]) if n.get("k") == "match"]
+        if not cands2:
+            called = {n["m"] for n in walk(disp["body"]) if n.get("k") == "mcall"}
+            for f_ in syn.fns:
+                if (f_.get("impl_of") or "").strip() == "CoreFunOp" and f_["name"] in called and f_.get("body") and not f_.get("impl_trait"):
+                    cands2 += [n for n in walk(f_["body"]) if n.get("k") == "match"]
+        if not cands2:
+            raise AnchorError("Display for CoreFunOp: no table found in fmt or in a method it calls")
+        m2 = cands2[0]
         t_disp = {}
         for a in m2["arms"]:
             for alt in pat_alternatives(a["pat"]):
